@@ -46,5 +46,32 @@ PROPS = {
     },
 }
 
+PROPS["C06"] = {
+    "id": "C06",
+    "modules": ["Snowflake.Props.C06", "Snowflake.Tie.NameMatcher"],
+    "theorems": [("Snowflake.Props.C06", "Snowflake.NameMatcher.C06." + t) for t in [
+        "superset_sound", "superset_sound_rules", "broker_check_sound", "broker_rejects_iff",
+        "proxy_accepts_only_member_and_wss", "empty_url_not_rejected", "proxy_rejects_outside"]],
+    "ties": [("Snowflake.Tie.NameMatcher", "Snowflake.Tie.NameMatcher." + t) for t in [
+        "new_tie", "isValidRule_tie", "isSupersetOf_tie", "isMember_tie", "proxyRejects_tie", "proxyPolls_check_precedes_offer"]],
+    "harness": [{"pkg": "common/namematcher", "test": "TestVerifC06Matcher"},
+                {"pkg": "broker", "test": "TestVerifC06Broker"}],
+    "overlay": {"common/namematcher/zz_verif_c06_test.go": "c06_namematcher_test.go",
+                "broker/zz_verif_c06_test.go": "c06_broker_test.go"},
+    "rule": "cases = (pattern, pattern, hostname) triples built to share suffixes (with/without ^ and $, empty, doubled anchors), "
+            "broker configurations (allowed, presumed, proxy pattern, legacy flag) through the real CheckProxyRelayPattern and "
+            "the real IPC.ProxyPolls; non-trivial = superset or membership holds / every broker case; distinct = distinct (class, case line)",
+    "level_text": "The superset-implies-membership law is a theorem for all matchers, patterns and hostnames; the broker check and the proxy's "
+                  "acceptance condition are theorems over definitions that are regenerated from the Go source (matcher functions and the "
+                  "runSession condition are translated and proved equal to the model by rfl); the ordering 'pattern check and return before "
+                  "RequestOffer' is a regenerated skeleton obligation; real matcher, CheckProxyRelayPattern and IPC.ProxyPolls are run "
+                  "against the model and the property oracle.",
+    "level_note": "Trusted: Lean kernel; translator (strings.HasPrefix/HasSuffix/TrimPrefix/TrimSuffix modelled on byte lists); net/url.Parse "
+                  "output (hostname, scheme) is an input to the model, and that the websocket dialer connects to the URL's host is not modelled; "
+                  "'never gives such a proxy a client' rests on the rejection preceding registration (skeleton tie + observed on the real IPC).",
+    "design_ref": "DESIGN.md §5.6",
+    "assumptions": ["net/url.Parse returns the hostname/scheme the dialer will use"],
+}
+
 NOT_APPLICABLE = {p: "check not built yet in this round (planned, see DESIGN.md §9); not claimed" for p in
-                  ["C01", "C02", "C03", "C04", "C05", "C06", "C07", "C08", "C10", "C11", "C12", "C13", "C14", "C15", "C16", "C17", "C18", "C19", "C20"]}
+                  ["C01", "C02", "C03", "C04", "C05", "C07", "C08", "C10", "C11", "C12", "C13", "C14", "C15", "C16", "C17", "C18", "C19", "C20"]}
